@@ -104,6 +104,20 @@ func unwindAztecDraw(cc *checkCtx, compact bool, layers int) []oblRes {
 			cc2 = append(cc2, term.Eq(got[i], want[i]))
 		}
 		c.Oblige("config", label+"/color", ok, term.And(cc2...))
+		// C15/C11: the stored payload is a private copy of the caller's bytes (fresh backing array,
+		// same length, same bytes), so overwriting the input afterwards cannot reach the barcode
+		if cs, isSl := c.Field(obj, "content").(exec.VSlice); !isSl {
+			bad("content-snapshot", "aztecCode.content is not a slice")
+		} else {
+			ds := data.(exec.VSlice)
+			k := term.Var("aztec.k", term.Int)
+			inb := term.And(term.Le(term.I(0), k), term.Lt(k, ds.Len))
+			c.Oblige("config", label+"/content-snapshot", ok, term.And(
+				term.Le(term.I(exec.FreshBase), cs.Ref),
+				term.Ne(cs.Ref, ds.Ref),
+				term.Eq(cs.Len, ds.Len),
+				term.Or(term.Not(inb), term.Eq(c.Term(c.ElemT(cs, k)), c.Term(c.ElemT(ds, k))))))
+		}
 		bl := c.Field(obj, "BitList")
 		c.Oblige("config", label+"/modules", ok, term.Eq(c.Term(c.Field(bl, "count")), term.I(int64(dim*dim))))
 		model := c.MathArr(c.Field(bl, "model"))
